@@ -25,7 +25,7 @@ GROUPS = {
     'selector': dict(attach='src/subscriber.rs', file='selector_harness.rs', module='subscriber::verif_kani_selector', bounded=False,
                      harnesses=['selector_step'], timeout=(300, 900)),
     'unsubscribe': dict(attach='src/store_impl.rs', file='unsubscribe_harness.rs', module='store_impl::verif_kani_unsubscribe', bounded=True,
-                        bound='unsubscribe: 1 registered subscriber, unwind 4; shutdown release and notification: 1 and 2 registered subscribers, unwind 5', harnesses=['unsubscribe_removes_exactly_target', 'clear_releases_under_lock', 'clear_releases_under_lock_2', 'notify_under_lock'], timeout=(600, 1800)),
+                        bound='1 and 2 registered subscribers (symbolic target), unwind 4/5', harnesses=['unsubscribe_removes_exactly_target', 'unsubscribe_removes_exactly_target_2', 'clear_releases_under_lock', 'clear_releases_under_lock_2', 'notify_under_lock'], timeout=(600, 1800)),
 }
 
 TRUSTED = [
